@@ -218,3 +218,13 @@ Example C19_limits_example :
   setstate32 17 (getstate32 16212958658533785599) = inr 16212958658533785599 /\
   (exists e, mk_genotype (repeat 0 15) = inl e) /\ (exists e, mk_genotype [16] = inl e).
 Proof. vm_compute. repeat split; try reflexivity; eexists; reflexivity. Qed.
+
+Example C19_order_example :
+  let g1 := pack [2;0;0;0;0;0;0;0;0;0;0;0;0;0;0;2] in
+  let g2 := pack [1;1;0;0;0;0;0;0;0;0;0;0;0;0;0;2] in
+  mk_genotype [0;2] = inr g1 /\ mk_genotype [1;1] = inr g2 /\ length [0;2] = length [1;1] /\
+  map (get_position g1) [0;1] = [2;0] /\ valid_desc 2 3 [2;0] = true /\
+  get_index32 g1 = 3 /\ get_index32 g2 = 2 /\
+  g_lt32 g2 g1 = true /\ g_lt32 g1 g2 = false /\ g_eq g1 g2 = false /\ g_ne g1 g2 = true /\
+  g_eq g1 g1 = true /\ mk_genotype [2;0] = inr g1.
+Proof. vm_compute. repeat split; reflexivity. Qed.
